@@ -440,7 +440,7 @@ reg('C17', module='c17', level='exploration',
                 '(undeclared/redeclared symbol, pop beyond depth, ill-sorted '
                 'term) and logs one reply per command; the harness joins '
                 'that log with its own record of API calls, truth is '
-                'computed by enumeration, models are re-evaluated.'),
+                'computed by exhaustive search, models are re-evaluated.'),
     level_note='trusts vf/smtread.py, vf/refsolver.py and vf/refeval.py',
     assumptions=['finite-domain theories only (Bool, bit-vectors, declared '
                  'sorts without functions)'],
